@@ -156,6 +156,18 @@ def fieldDiff (given got : List Field) : Option String :=
     else if a.dataType != b.dataType then some s!"type/{a.dataType.ctor}"
     else none
 
+/-- the top-level value is collection-shaped for the strict `Serializer` (newtype struct / newtype variant layers peeled)
+or for `ArrayBuilder::extend` (newtype struct / `Some` layers peeled): a "single record" that is itself a tuple / sequence /
+tuple struct is indistinguishable from a collection of records and is legitimately accepted as one (thorough tier of C10,
+vp run #6, case backend-003795: a FALSE ALARM of the name-based rule) -/
+partial def topIsCollection (ext : Bool) : SVal → Bool
+  | .seq _ | .tuple _ | .tupleStruct _ _ => true
+  | .tupleVariant _ _ _ _ => !ext
+  | .newtypeStruct _ v => topIsCollection ext v
+  | .newtypeVariant _ _ _ v => !ext && topIsCollection ext v
+  | .some v => ext && topIsCollection ext v
+  | _ => false
+
 def handle (j : Json) : Except String Verdict := do
   let fields ← (← getArr j "schema").toList.mapM fieldOfJson
   let rows ← (← getArr j "rows").toList.mapM svalOfJson
@@ -528,6 +540,8 @@ def handle (j : Json) : Except String Verdict := do
             c10 := "fail"
             c10Sig := s!"C10/top/{form}/{n}/arrays-differ-from-plain-seq"
             c10Why := s!"top-level {form} through {n}: the arrays are not those of the same rows given as a plain sequence"
+      else if topIsCollection (n == "extend") v then
+        tags := "top-record-is-collection-shaped" :: tags
       else if cls != "err" && cls != "view_err" then
         if c10Sig == "" then
           c10 := "fail"
